@@ -992,7 +992,8 @@ func (w *World) start(a *actor) {
 			}
 		case "PodCompleted":
 			old := &v1.Pod{}
-			if err := w.base.Get(ctx, client.ObjectKey{Namespace: podNS, Name: podName(a.P)}, old); err != nil || old.Status.Phase != v1.PodRunning {
+			if err := w.base.Get(ctx, client.ObjectKey{Namespace: podNS, Name: podName(a.P)}, old); err != nil || old.DeletionTimestamp != nil ||
+				!(old.Status.Phase == v1.PodRunning || (old.Status.Phase == v1.PodPending && old.Spec.NodeName != "")) {
 				w.skip(a)
 				return
 			}
